@@ -162,7 +162,9 @@ rc::Gen<std::vector<Op>> genScriptOps(const ScriptCfg &c) {
             {1, concat({one(op("slotcopy", {g::just(s), g::just(k)})), one(op("fmut", {g::just(s), g::just<long long>(3), seedv()})), one(op("fsub", {g::just(s), uni(0, 1), sized(0, 20)}))})}});
     });
     // POINT:FRAMES lowered by hand, then a point / channel column with as many frames as the HEADER now announces
-    auto staleCount = concat({one(op("pframes", {g::elementOf(std::vector<long long>{-1, -1, -2})})), one(g::oneOf(op("pcol", {sized(0, 30), uni(0, 2), g::just<long long>(2), seedv()}), op("acol", {sized(0, 30), uni(0, 2), g::just<long long>(2), seedv()})))});
+    auto staleCount = concat({one(op("pframes", {g::elementOf(std::vector<long long>{-1, -1, -2, 2})})),
+                              one(g::oneOf(op("pcol", {sized(0, 30), uni(0, 2), g::just<long long>(2), seedv()}), op("acol", {sized(0, 30), uni(0, 2), g::just<long long>(2), seedv()}),
+                                           op("declp", {nameIdx(), trail()}), op("decla", {nameIdx(), trail()}), op("pcol", {sized(0, 30), uni(0, 2), g::just<long long>(0), seedv()})))});
     std::vector<std::pair<size_t, rc::Gen<std::vector<Op>>>> mix = {{6, one(gEditOp(c))}, {4, gFrameAdd(c)}, {2, one(gSetupOp(c, c.lateRates))}};
     if (c.workingCopies) mix.push_back({1, copyBack});
     if (c.framesParamMid) mix.push_back({1, staleCount});
@@ -197,9 +199,9 @@ static ScriptCfg cfgFor(const std::string &id, int tier) {
     if (id == "C01") { c.extend = true; c.resample = true; }
     else if (id == "C03") { c.reload = true; c.subCountDeviations = true; c.resample = true; }     // accepted frames with another sub-frame count are saved too
     else if (id == "C05") { c.resample = true; c.deviations = true; c.reload = true; c.lateRates = true; c.fillAtEnd = false; c.badParams = true; }
-    else if (id == "C06") { c.lateRates = true; c.workingCopies = true; c.fillAtEnd = false; c.callerReuse = false; c.deviations = true; }   // accepted deviating frames (e.g. points only) must be stored exactly as given too
+    else if (id == "C06") { c.framesParamMid = true; c.lateRates = true; c.workingCopies = true; c.fillAtEnd = false; c.callerReuse = false; c.deviations = true; }   // accepted deviating frames (e.g. points only) must be stored exactly as given too
     else if (id == "C07") { c.deviations = true; c.fillAtEnd = false; }
-    else if (id == "C08") { c.workingCopies = true; c.callerReuse = true; c.fillAtEnd = false; }
+    else if (id == "C08") { c.framesParamMid = true; c.workingCopies = true; c.callerReuse = true; c.fillAtEnd = false; }
     else if (id == "C09") { c.badParams = true; c.nameVariants = true; c.selfParam = true; c.fillAtEnd = false; c.maxFrames = 2; }
     else if (id == "C10") { c.deviations = true; c.badParams = true; c.nameVariants = true; c.ragged = true; c.reload = true; c.fillAtEnd = false; }
     else if (id == "C13") { c.framesParamMid = true; c.resample = true; c.workingCopies = true; c.selfParam = true; c.keepRefused = true; c.deviations = true; c.badParams = true; c.callerReuse = true; c.reload = true; c.print = true; c.ragged = false; }
